@@ -162,6 +162,14 @@ def sweep_pairs(pool: dict, tier: str = "quick", vseed: int = 0) -> list[dict]:
             pairs.append({"ops": [["iban", acc, {"validate_bban": True}],
                                   ["iban", rej, {"validate_bban": True}]],
                           "targets": [key, key], "label": f"{key} IBAN accept x reject"})
+    if tier == "thorough":
+        for key in sorted(pool["de_methods"]):
+            rows = pool["de_methods"][key]["accounts"]
+            acc = first(rows, lambda c: c.startswith("accept"))
+            rej = first(rows, lambda c: c.startswith("reject"))
+            if acc and rej:
+                pairs.append({"ops": [["algo_validate", key, [acc], ""], ["algo_validate", key, [rej], ""]],
+                              "targets": [key, key], "label": f"{key} two pre-emptions grid", "shape": "grid", "grid": 14})
     # bytecode-granularity sweeps of "the same call again" against another account of the same method
     # (memo / last-result patterns tear inside one source line); a rotating subset in the quick tier
     dkeys = sorted(pool["de_methods"])
@@ -247,8 +255,24 @@ def sweep_pairs(pool: dict, tier: str = "quick", vseed: int = 0) -> list[dict]:
 def sweep_runs(pair_index: int, pair: dict, vseed: int, max_points: int) -> list[dict]:
     """One run per single pre-emption point of either op, the other running whole inside the gap
     (every point when the op has at most `max_points` of them, else an even sample)."""
-    recs = []
     a, b = pair["ops"]
+    if pair.get("shape") == "grid":
+        # two pre-emptions: A runs k1 points, B runs k2 points, A finishes, B finishes (sampled k1 x k2 grid)
+        recs = []
+        sa, sb = runner.steps(a, "line"), runner.steps(b, "line")
+        n = pair.get("grid", 12)
+        for k1 in sorted({1 + (i * sa) // n for i in range(n)}):
+            for k2 in sorted({1 + (i * sb) // n for i in range(n)}):
+                script = [[0, k1, "p"], [1, k2, "p"], [0, 0, "f"], [1, 0, "f"]]
+                recs.append({
+                    "property": PROP, "engine": core.ENGINE_VERSION, "verif_seed": vseed,
+                    "run_index": f"grid-{pair_index}-{k1}-{k2}", "run_seed": "n/a (sweep)", "pythonhashseed": core.HASHSEED,
+                    "config": {"threads": 2, "granularity": "line", "policy": ["script", script], "warm": False,
+                               "mode": "sweep", "label": pair["label"], "cold": False, "warm_lookups": 0},
+                    "threads": [[a], [b]], "targets": [[pair["targets"][0]], [pair["targets"][1]]], "policy_seed": 0,
+                })
+        return recs
+    recs = []
     gran = pair.get("granularity", "line")
     repeat = pair.get("shape") == "repeat"  # thread 0 makes the same call twice; the second one is swept
     for first_tid, (x, y) in enumerate(((a, b), (b, a))):
